@@ -238,6 +238,13 @@ func coqCell(c scell) string {
 }
 
 func runC12(r *Report, rng *rand.Rand, thorough bool) {
+	// the strict wrapper templates as terms (Gen/Wrappers.v): the model's render against the real template engine
+	nT := 5
+	if thorough {
+		nT = 40
+	}
+	runStrictTemplateCorrespondence(r, rng, nT)
+
 	cells := strictCells()
 	groups := map[string][]scell{}
 	for _, c := range cells {
